@@ -65,6 +65,7 @@ type Incarnation struct {
 	// loop), removed an entry INSIDE this incarnation's directory: the successor's lock has been damaged by the
 	// predecessor's release, what follows (an empty directory read as stale, a take-over) is a consequence.
 	GuttedBy         string
+	GuttedClass      string // the known class which explains the gutting (see the after hook)
 	FirstRemoveIn    time.Time
 	FirstRemoveInSeq int64 // its event sequence number (several events share one instant of the virtual clock)
 	// EndKind tells how the incarnation ended: "owner" (removed by its creator), "foreign-stale" (removed by somebody else
@@ -431,9 +432,23 @@ func (w *World) after(e *fsmon.Event) {
 				w.dirEvents = append(w.dirEvents, DirEvent{At: time.Now(), Inc: w.cur.ID, Kind: "create", Path: filepath.Clean(e.Path)})
 			case e.Op == fsmon.OpRemove || e.Op == fsmon.OpRemoveAll:
 				w.dirEvents = append(w.dirEvents, DirEvent{At: time.Now(), Inc: w.cur.ID, Kind: "remove", Path: filepath.Clean(e.Path)})
-				if e.Actor != w.cur.Owner && w.incAtCall[e.Actor] != w.cur.ID && w.cur.GuttedBy == "" &&
-					((strings.HasPrefix(w.curCall[e.Actor], "Unlock") && w.wasHolder[e.Actor]) || w.rmTries[e.Actor] >= 1) {
-					w.cur.GuttedBy = e.Actor
+				if e.Actor != w.cur.Owner && w.incAtCall[e.Actor] != w.cur.ID && w.cur.GuttedBy == "" {
+					// the remover's decision window began on ANOTHER incarnation: it acts on a verdict about a lock which is gone
+					cls := ""
+					switch {
+					case (strings.HasPrefix(w.curCall[e.Actor], "Unlock") && w.wasHolder[e.Actor]) || w.rmTries[e.Actor] >= 1:
+						cls = "unlock-retry-removes-successor"
+					default:
+						if k := w.incAtCall[e.Actor]; k >= 1 && k <= len(w.Incs) {
+							la := w.Incs[k-1]
+							if la.EndKind == "foreign-stale" || w.staleReadable(la.ID, w.winStart[e.Actor], time.Now()) {
+								cls = "stale-takeover-toctou"
+							}
+						}
+					}
+					if cls != "" {
+						w.cur.GuttedBy, w.cur.GuttedClass = e.Actor, cls
+					}
 				}
 				if w.cur.FirstRemoveIn.IsZero() {
 					w.cur.FirstRemoveIn = time.Now()
@@ -508,7 +523,7 @@ func (w *World) after(e *fsmon.Event) {
 						switch {
 						case inc.GuttedBy != "":
 							// the heartbeat file of this lock had been removed by the retry loop of a predecessor's Unlock
-							fr.Class = "unlock-retry-removes-successor"
+							fr.Class = inc.GuttedClass
 						case createdDuring && strings.HasPrefix(fr.RemoverCall, "Unlock") && w.wasHolder[e.Actor]:
 							fr.Class = "unlock-retry-removes-successor"
 						case createdDuring && w.rmTries[e.Actor] >= 2:
